@@ -160,3 +160,465 @@ Proof.
   inversion Hr as [|x y [G1 [G2 G3]] _]; subst. simpl in *.
   apply (aligned_finer utc (t + l * s) s s' H2 G2 D). apply aligned_add; assumption.
 Qed.
+
+
+(* the part of GetTimescale after the LOD loop (verbatim from Model.get_timescale) *)
+Definition ts_tail (c : cal) (a : args) (lods : list (Z * Z)) : result :=
+  let utc := a_utc a in
+  let point := is_point (a_mode a) in
+  match lods with
+  | [] => ROk empty_ts
+  | (s0, _) :: _ =>
+    if existsb (fun m => negb (Z.rem (fst m) s0 =? 0)) (a_metrics a) then RErr EOffset
+    else
+      let t := start_of_lod c (a_start a) s0 utc in
+      if point then
+        let t := if (t <? a_start a) && negb (a_extend a) then step_forward c t s0 else t in
+        let t1 := fst (end_of_lod c t s0 (a_end a) (negb (a_extend a))) in
+        if t =? t1 then ROk empty_ts
+        else ROk {| ts_time := [t; t1]; ts_lods := lods; ts_startx := 0; ts_vstartx := 0; ts_vendx := 1 |}
+      else
+        let '(t, d, sx, vsx) :=
+          if t <? a_start a then (t, 0, (if a_extend a then 0 else 1), 1)
+          else if a_extend a then (start_of_lod c (t - 1) s0 utc, 1, 0, 1)
+          else (t, 0, 0, 0) in
+        let '(t, d, sx, vsx) :=
+          if sx =? 0 then (start_of_lod c (t - 1) s0 utc, d + 1, sx + 1, vsx + 1) else (t, d, sx, vsx) in
+        let lods1 := bump_first lods d in
+        let '(tm, tlast) := gen_time c t lods1 in
+        let vex := if vsx <? zlen tm then zlen tm else vsx in
+        if a_extend a then
+          ROk {| ts_time := tm ++ [tlast]; ts_lods := bump_last lods1 1; ts_startx := sx; ts_vstartx := vsx; ts_vendx := vex |}
+        else
+          ROk {| ts_time := tm; ts_lods := lods1; ts_startx := sx; ts_vstartx := vsx; ts_vendx := vex |}
+  end.
+
+Definition q_moff (a : args) := max_offset (a_metrics a).
+Definition q_minstep (a : args) :=
+  if is_point (a_mode a) || (a_step a <? max_res (a_metrics a)) then max_res (a_metrics a) else a_step a.
+Definition q_levels (a : args) := if a_step a =? month_step then lod_levels_monthly else lod_levels.
+
+Lemma get_timescale_eq strict c a :
+  get_timescale strict c a =
+  if (a_end a <=? a_start a) || (a_step a <? 0) then ROk empty_ts
+  else match outer c (a_utc a) (a_end a - q_moff a) (q_minstep a) (a_width a) (is_point (a_mode a)) (a_now a) strict
+                   (q_levels a) (a_start a - q_moff a) 0 0 [] with
+       | inl er => RErr er
+       | inr rl => ts_tail c a (rev rl)
+       end.
+Proof. reflexivity. Qed.
+
+Lemma max_res_ge1 ms : 1 <= max_res ms.
+Proof. unfold max_res. induction ms; simpl; lia. Qed.
+Lemma q_minstep_ge1 a : 0 <= a_step a -> 1 <= q_minstep a.
+Proof.
+  intros H. unfold q_minstep. pose proof (max_res_ge1 (a_metrics a)).
+  destruct (is_point (a_mode a) || (a_step a <? max_res (a_metrics a))) eqn:B; [assumption|].
+  apply orb_false_iff in B. destruct B as [_ B]. apply Z.ltb_ge in B. lia.
+Qed.
+
+(* the range-query tail in closed form *)
+Lemma ts_tail_range c a s0 l0 r :
+  is_point (a_mode a) = false -> 0 < s0 -> s0 <> month_step -> Forall fixed_lod ((s0, l0) :: r) ->
+  existsb (fun m => negb (Z.rem (fst m) s0 =? 0)) (a_metrics a) = false ->
+  let t := round_time (a_start a) s0 (a_utc a) in
+  let ext := if a_extend a then 1 else 0 in
+  let d := (if t <? a_start a then 0 else 1) + ext in
+  let lods1 := (s0, l0 + d) :: r in
+  exists vex,
+  ts_tail c a ((s0, l0) :: r) =
+  ROk {| ts_time := if a_extend a then progs (t - d * s0) lods1 ++ [t - d * s0 + span lods1] else progs (t - d * s0) lods1;
+         ts_lods := if a_extend a then bump_last lods1 1 else lods1;
+         ts_startx := 1; ts_vstartx := 1 + ext; ts_vendx := vex |}.
+Proof.
+  intros Hp Hs HM HF Hoff t ext d lods1.
+  assert (HF1 : Forall fixed_lod lods1).
+  { inversion HF as [|x y [H1 [H2 H3]] Hr]; subst. constructor; [|assumption]. unfold fixed_lod in *. simpl in *.
+    repeat split; try assumption. unfold d, ext. destruct (t <? a_start a); destruct (a_extend a); lia. }
+  assert (At : aligned (a_utc a) t s0) by (apply fl_aligned; assumption).
+  assert (At1 : aligned (a_utc a) (t - s0) s0).
+  { replace (t - s0) with (t + (-1) * s0) by lia. apply aligned_add; assumption. }
+  unfold ts_tail. rewrite Hoff, Hp. rewrite !sol_fixed by assumption. fold t.
+  destruct (t <? a_start a) eqn:Hlt; destruct (a_extend a) eqn:Hext; cbv iota beta; simpl (_ =? 0); cbv iota beta;
+    rewrite ?sol_fixed by assumption; rewrite ?(fl_pred (a_utc a) t s0 Hs At);
+    rewrite ?(fl_pred (a_utc a) (t - s0) s0 Hs At1); unfold bump_first.
+  - assert (Ed : d = 1) by (unfold d, ext; rewrite ?Hlt, ?Hext; reflexivity).
+    unfold lods1 in *. rewrite Ed in *. rewrite Z.mul_1_l. change (0 + 1) with 1.
+    rewrite (gen_time_progs c _ HF1). eexists. reflexivity.
+  - assert (Ed : d = 0) by (unfold d, ext; rewrite ?Hlt, ?Hext; reflexivity).
+    unfold lods1 in *. rewrite Ed in *. rewrite Z.mul_0_l, Z.sub_0_r.
+    rewrite (gen_time_progs c _ HF1). eexists. reflexivity.
+  - assert (Ed : d = 2) by (unfold d, ext; rewrite ?Hlt, ?Hext; reflexivity).
+    unfold lods1 in *. rewrite Ed in *. replace (t - 2 * s0) with (t - s0 - s0) by lia. change (1 + 1) with 2.
+    rewrite (gen_time_progs c _ HF1). eexists. reflexivity.
+  - assert (Ed : d = 1) by (unfold d, ext; rewrite ?Hlt, ?Hext; reflexivity).
+    unfold lods1 in *. rewrite Ed in *. rewrite Z.mul_1_l. change (0 + 1) with 1.
+    rewrite (gen_time_progs c _ HF1). eexists. reflexivity.
+Qed.
+
+
+Lemma span_rev rl : sumspan rl = span (rev rl).
+Proof. induction rl as [|[s l] r IH]; simpl. reflexivity. rewrite span_app. simpl. unfold sumspan in *. simpl. rewrite IH. lia. Qed.
+Lemma lsum_rev rl : sumlen rl = lsum (rev rl).
+Proof. induction rl as [|[s l] r IH]; simpl. reflexivity. rewrite lsum_app. unfold sumlen, lsum in *. simpl. rewrite IH. lia. Qed.
+Lemma hd_rev_last {A} (l : list A) d : hd d (rev l) = last l d.
+Proof.
+  induction l as [|x r IH]; simpl. reflexivity.
+  destruct r as [|y r']. reflexivity. rewrite <- IH. simpl. destruct (rev r' ++ [y]) eqn:E; [destruct (rev r'); discriminate|]. reflexivity.
+Qed.
+Lemma last_rev_hd {A} (l : list A) d : last (rev l) d = hd d l.
+Proof. rewrite <- hd_rev_last. rewrite rev_involutive. reflexivity. Qed.
+
+Lemma ss_snoc {A} (R : A -> A -> Prop) l x : StronglySorted R l -> Forall (fun y => R y x) l -> StronglySorted R (l ++ [x]).
+Proof.
+  induction 1 as [|a l Hs IH Ha]; intros HF; simpl. constructor; constructor.
+  inversion HF; subst. constructor. apply IH; assumption. apply Forall_app. split; [assumption|constructor; [assumption|constructor]].
+Qed.
+Lemma ss_rev {A} (R : A -> A -> Prop) l : StronglySorted R l -> StronglySorted (fun x y => R y x) (rev l).
+Proof.
+  induction 1 as [|a l Hs IH Ha]; simpl. constructor.
+  apply ss_snoc. assumption. apply Forall_rev. assumption.
+Qed.
+Lemma ss_app_l {A} (R : A -> A -> Prop) l1 l2 : StronglySorted R (l1 ++ l2) -> StronglySorted R l1.
+Proof.
+  induction l1 as [|a l IH]; simpl; intros H. constructor.
+  inversion H; subst. constructor. apply IH; assumption. apply Forall_app in H3. tauto.
+Qed.
+
+Lemma max_offset_multiple s0 ms : 0 < s0 ->
+  existsb (fun m => negb (Z.rem (fst m) s0 =? 0)) ms = false ->
+  (s0 | max_offset ms) /\ forall m, In m ms -> (s0 | fst m).
+Proof.
+  intros Hs. induction ms as [|m r IH]; simpl; intros H. split; [apply Z.divide_0_r | intros m []].
+  apply orb_false_iff in H. destruct H as [H1 H2]. destruct (IH H2) as [D1 D2].
+  apply negb_false_iff in H1. apply Z.eqb_eq in H1. apply Z.rem_divide in H1; [|lia].
+  split. unfold max_offset in *. simpl. destruct (Z.max_spec (fst m) (fold_right (fun m0 acc => Z.max (fst m0) acc) 0 r)) as [[_ E]|[_ E]]; rewrite E; assumption.
+  intros m' [E|I]; [subst; assumption | apply D2; assumption].
+Qed.
+
+Lemma lod_ok_fixed sl : lod_ok fixed_all sl -> fixed_lod sl.
+Proof. intros [H1 [H2 H3]]. pose proof (fixed_all_range _ H1). unfold fixed_lod. repeat split; lia. Qed.
+
+Lemma sorted_lods_div lods : Forall (lod_ok fixed_all) lods -> StronglySorted (fun x y : Z * Z => fst y < fst x) lods -> lods_div lods.
+Proof.
+  induction lods as [|[s l] r IH]; intros HF HS. exact I.
+  inversion HF as [|x y Hx Hr]; subst. inversion HS as [|x y Sr Sx]; subst.
+  destruct r as [|[s' l'] r']. exact I. split; [|apply IH; assumption].
+  inversion Sx; subst. simpl in *. inversion Hr as [|x y Hx' _]; subst.
+  apply fixed_all_div; [apply Hx | apply Hx' | lia].
+Qed.
+
+Definition gt_fst (x y : Z * Z) : Prop := fst y < fst x.
+
+(* structure of a successful range query with fixed steps (repaired variant = the current code) *)
+Lemma range_structure c a ts :
+  a_step a <> month_step -> is_point (a_mode a) = false ->
+  get_timescale false c a = ROk ts ->
+  ts = empty_ts \/
+  exists s0 l0 r,
+    let lods := (s0, l0) :: r in
+    let t := round_time (a_start a) s0 (a_utc a) in
+    let ext := if a_extend a then 1 else 0 in
+    let d := (if t <? a_start a then 0 else 1) + ext in
+    let lods1 := (s0, l0 + d) :: r in
+    Forall (lod_ok fixed_all) lods /\ StronglySorted gt_fst lods /\
+    lsum lods <= max_points /\
+    a_end a <= t + span lods /\ t + span lods - fst (last lods (0, 0)) < a_end a /\
+    (forall m, In m (a_metrics a) -> (s0 | fst m)) /\
+    ts_time ts = (if a_extend a then progs (t - d * s0) lods1 ++ [t - d * s0 + span lods1] else progs (t - d * s0) lods1) /\
+    ts_lods ts = (if a_extend a then bump_last lods1 1 else lods1) /\
+    ts_startx ts = 1 /\ ts_vstartx ts = 1 + ext.
+Proof.
+  intros Hm Hp H. rewrite get_timescale_eq in H.
+  destruct ((a_end a <=? a_start a) || (a_step a <? 0)) eqn:G.
+  { left. inversion H. reflexivity. }
+  apply orb_false_iff in G. destruct G as [G1 G2]. apply Z.leb_gt in G1. apply Z.ltb_ge in G2.
+  assert (Elv : q_levels a = lod_levels). { unfold q_levels. apply Z.eqb_neq in Hm. rewrite Hm. reflexivity. }
+  rewrite Elv, Hp in H.
+  pose proof (outer_spec c (a_utc a) (a_end a - q_moff a) (q_minstep a) (a_width a) false (a_now a) false
+               (a_start a - q_moff a) fixed_all (q_minstep_ge1 a G2) fixed_all_div fixed_all_range eq_refl
+               lod_levels lod_levels_wf _ _ _ _ (inv_init (a_utc a) (a_end a - q_moff a) false (a_now a) (a_start a - q_moff a) fixed_all lod_levels)) as S.
+  destruct (outer c (a_utc a) (a_end a - q_moff a) (q_minstep a) (a_width a) false (a_now a) false lod_levels (a_start a - q_moff a) 0 0 []) as [er|rl];
+    [discriminate|].
+  destruct S as [F1 [F2 [F3 F4]]].
+  destruct (rev rl) as [|[s0 l0] r] eqn:Erev.
+  { left. simpl in H. inversion H. reflexivity. }
+  right. exists s0, l0, r. cbv zeta.
+  assert (Hlods : Forall (lod_ok fixed_all) ((s0, l0) :: r)) by (rewrite <- Erev; apply Forall_rev; assumption).
+  assert (Hfix : Forall fixed_lod ((s0, l0) :: r)) by (eapply Forall_impl; [|exact Hlods]; apply lod_ok_fixed).
+  inversion Hfix as [|x y [S1 [S2 S3]] _]; subst. simpl in S1, S2, S3.
+  destruct (existsb (fun m => negb (Z.rem (fst m) s0 =? 0)) (a_metrics a)) eqn:Hoff.
+  { unfold ts_tail in H. rewrite Hoff in H. discriminate. }
+  destruct (ts_tail_range c a s0 l0 r Hp S2 S1 Hfix Hoff) as [vex Ht]. cbv zeta in Ht. rewrite Ht in H. inversion H; subst ts; clear H.
+  destruct (max_offset_multiple s0 (a_metrics a) S2 Hoff) as [Dm Dall]. fold (q_moff a) in Dm.
+  assert (Nrl : rl <> []) by (intros E0; subst rl; discriminate).
+  specialize (F4 Nrl). rewrite span_rev, Erev in F4.
+  assert (Efs : first_step rl = s0). { unfold first_step. rewrite <- hd_rev_last. rewrite Erev. reflexivity. }
+  assert (Ehd : hd_step rl = fst (last ((s0, l0) :: r) (0, 0))). { unfold hd_step. rewrite <- Erev. rewrite last_rev_hd. reflexivity. }
+  rewrite Efs, Ehd in F4.
+  assert (Et : round_time (a_start a) s0 (a_utc a) = round_time (a_start a - q_moff a) s0 (a_utc a) + q_moff a).
+  { rewrite (fl_shift (a_utc a) (a_start a) s0 (q_moff a) S2 Dm). lia. }
+  split; [exact Hlods|]. split.
+  { rewrite <- Erev. unfold gt_fst. apply (ss_rev (fun x y : Z * Z => fst x < fst y)). exact F2. }
+  split. { specialize (F3 eq_refl). rewrite lsum_rev, Erev in F3. exact F3. }
+  split; [lia|]. split; [lia|]. split; [exact Dall|]. simpl. repeat split; reflexivity.
+Qed.
+
+
+Lemma snoc_form {A} (x : A) (l : list A) : exists p y, x :: l = p ++ [y].
+Proof. destruct (exists_last (l := x :: l) ltac:(discriminate)) as [p [y E]]. exists p, y. exact E. Qed.
+
+Lemma ss_change_last p : forall s l l', StronglySorted gt_fst (p ++ [(s, l)]) -> StronglySorted gt_fst (p ++ [(s, l')]).
+Proof.
+  induction p as [|a p IH]; intros s l l' H; simpl in *. constructor; constructor.
+  inversion H; subst. constructor. eapply IH; eassumption.
+  apply Forall_app in H3. destruct H3 as [F1 F2]. apply Forall_app. split; [assumption|].
+  inversion F2; subst. constructor; [|constructor]. unfold gt_fst in *. simpl in *. assumption.
+Qed.
+Lemma lod_ok_change_last all p s l l' : 0 < l' -> Forall (lod_ok all) (p ++ [(s, l)]) -> Forall (lod_ok all) (p ++ [(s, l')]).
+Proof.
+  intros Hl H. apply Forall_app in H. destruct H as [F1 F2]. apply Forall_app. split; [assumption|].
+  inversion F2; subst. constructor; [|constructor]. unfold lod_ok in *. simpl in *. tauto.
+Qed.
+
+Lemma lod_ok_hd all s l r : Forall (lod_ok all) ((s, l) :: r) -> In s all /\ 0 < s /\ 0 < l.
+Proof. intros H. apply Forall_inv in H. exact H. Qed.
+
+(* facts about the LOD list of the result, given the LOD list of the loop *)
+Lemma result_lods_facts s0 l0 r d (ext : bool) :
+  Forall (lod_ok fixed_all) ((s0, l0) :: r) -> StronglySorted gt_fst ((s0, l0) :: r) -> 0 <= d ->
+  let lods := (s0, l0) :: r in
+  let lods1 := (s0, l0 + d) :: r in
+  let L := if ext then bump_last lods1 1 else lods1 in
+  Forall (lod_ok fixed_all) L /\ StronglySorted gt_fst L /\
+  lsum L = lsum lods + d + (if ext then 1 else 0) /\
+  fst (last L (0, 0)) = fst (last lods (0, 0)) /\
+  (exists lh r', L = (s0, lh) :: r' /\ l0 + d <= lh) /\
+  (forall t, (if ext then progs t lods1 ++ [t + span lods1] else progs t lods1) = progs t L) /\
+  span lods1 = span lods + d * s0 /\
+  (exists p sk lk, lods1 = p ++ [(sk, lk)] /\ 0 < lk /\ sk = fst (last lods (0, 0))).
+Proof.
+  intros HF HS Hd lods lods1 L.
+  assert (HF1 : Forall (lod_ok fixed_all) lods1).
+  { pose proof (Forall_inv HF) as Hx. pose proof (Forall_inv_tail HF) as Hr. constructor; [|assumption]. unfold lod_ok in *. simpl in *. intuition lia. }
+  assert (HS1 : StronglySorted gt_fst lods1).
+  { apply StronglySorted_inv in HS. destruct HS as [Sr Sx]. constructor; [assumption|]. eapply Forall_impl; [|exact Sx]. unfold gt_fst. simpl. auto. }
+  assert (Hsp : span lods1 = span lods + d * s0) by (unfold lods1, lods; simpl; lia).
+  assert (Hls : lsum lods1 = lsum lods + d) by (unfold lods1, lods, lsum; simpl; lia).
+  assert (Hlast : fst (last lods1 (0, 0)) = fst (last lods (0, 0))).
+  { unfold lods1, lods. destruct r; reflexivity. }
+  destruct (snoc_form (s0, l0 + d) r) as [p [[sk lk] Ep]]. fold lods1 in Ep.
+  assert (Hlk : 0 < lk /\ sk = fst (last lods (0, 0))).
+  { rewrite <- Hlast. rewrite Ep. rewrite last_last. simpl. split; [|reflexivity].
+    rewrite Ep in HF1. apply Forall_app in HF1. destruct HF1 as [_ F]. apply Forall_inv in F. destruct F as [_ [_ H1]]. exact H1. }
+  destruct Hlk as [Hlk Hsk].
+  destruct ext.
+  - unfold L. rewrite Ep. rewrite bump_last_snoc.
+    split. { apply (lod_ok_change_last fixed_all p sk lk (lk + 1)); [lia|]. rewrite <- Ep. exact HF1. }
+    split. { apply (ss_change_last p sk lk (lk + 1)). rewrite <- Ep. exact HS1. }
+    split. { rewrite lsum_app. rewrite Ep, lsum_app in Hls. unfold lsum in *. simpl in *. lia. }
+    split. { rewrite last_last. simpl. exact Hsk. }
+    split. { destruct p as [|x p']; simpl in Ep; unfold lods1 in Ep.
+             - injection Ep as E1 E2 E3. exists (lk + 1), []. split; [rewrite E1; reflexivity|lia].
+             - injection Ep as E1 E2. exists (l0 + d), (p' ++ [(sk, lk + 1)]). split; [simpl; rewrite <- E1; reflexivity|lia]. }
+    split. { intros t. rewrite (progs_bump_last t p sk lk ltac:(lia)). reflexivity. }
+    split; [rewrite <- Ep; exact Hsp|]. exists p, sk, lk. repeat split; try assumption; reflexivity.
+  - unfold L. split; [exact HF1|]. split; [exact HS1|]. split; [lia|]. split; [exact Hlast|].
+    split. { exists (l0 + d), r. split; [reflexivity|lia]. }
+    split; [reflexivity|]. split; [exact Hsp|]. exists p, sk, lk. repeat split; assumption.
+Qed.
+
+Section RangeTheorems.
+  Variables (c : cal) (a : args) (ts : timescale).
+  Hypothesis Hm : a_step a <> month_step.
+  Hypothesis Hp : is_point (a_mode a) = false.
+  Hypothesis Hok : get_timescale false c a = ROk ts.
+
+  (* (1) the time array is the concatenation of the per-LOD arithmetic progressions, the LODs have table steps that
+     strictly decrease (each dividing the previous) and positive lengths, and the first point is aligned *)
+  Theorem range_time_is_progressions :
+    exists t0,
+      ts_time ts = progs t0 (ts_lods ts) /\
+      Forall (lod_ok fixed_all) (ts_lods ts) /\ StronglySorted gt_fst (ts_lods ts) /\ lods_div (ts_lods ts) /\
+      match ts_lods ts with (s, _) :: _ => aligned (a_utc a) t0 s | [] => True end /\
+      zlen (ts_time ts) = lsum (ts_lods ts).
+  Proof.
+    destruct (range_structure c a ts Hm Hp Hok) as [E|[s0 [l0 [r S]]]].
+    - subst ts. exists 0. simpl. repeat split; constructor.
+    - cbv zeta in S. destruct S as [HF [HS [_ [_ [_ [_ [Et [El _]]]]]]]].
+      set (t := round_time (a_start a) s0 (a_utc a)) in *.
+      set (d := (if t <? a_start a then 0 else 1) + (if a_extend a then 1 else 0)) in *.
+      assert (Hd : 0 <= d) by (unfold d; destruct (t <? a_start a); destruct (a_extend a); lia).
+      destruct (result_lods_facts s0 l0 r d (a_extend a) HF HS Hd) as [F1 [F2 [F3 [F4 [[lh [r' [F5 F5']]] [F6 _]]]]]].
+      cbv zeta in *. rewrite <- El in *. exists (t - d * s0).
+      assert (Hs0 : 0 < s0) by (apply (lod_ok_hd _ _ _ _ HF)).
+      assert (Hfix : Forall fixed_lod (ts_lods ts)) by (eapply Forall_impl; [|exact F1]; apply lod_ok_fixed).
+      split; [rewrite Et; apply F6|]. split; [exact F1|]. split; [exact F2|].
+      split; [apply sorted_lods_div; assumption|]. split.
+      + rewrite F5. replace (t - d * s0) with (t + (- d) * s0) by lia. apply aligned_add; [assumption|]. apply fl_aligned. assumption.
+      + rewrite Et, F6. apply progs_length. exact Hfix.
+  Qed.
+
+  (* (3) the number of points stays within maxPoints + 3 *)
+  Theorem range_point_count_bounded : zlen (ts_time ts) <= max_points + 3.
+  Proof.
+    destruct (range_structure c a ts Hm Hp Hok) as [E|[s0 [l0 [r S]]]].
+    - subst ts. unfold zlen, empty_ts, max_points. cbn [ts_time length]. lia.
+    - cbv zeta in S. destruct S as [HF [HS [Hb [_ [_ [_ [Et [El _]]]]]]]].
+      set (t := round_time (a_start a) s0 (a_utc a)) in *.
+      set (d := (if t <? a_start a then 0 else 1) + (if a_extend a then 1 else 0)) in *.
+      assert (Hd : 0 <= d <= 1 + (if a_extend a then 1 else 0)) by (unfold d; destruct (t <? a_start a); destruct (a_extend a); lia).
+      destruct (result_lods_facts s0 l0 r d (a_extend a) HF HS ltac:(lia)) as [F1 [F2 [F3 [F4 [_ [F6 _]]]]]].
+      cbv zeta in *. rewrite <- El in *.
+      assert (Hfix : Forall fixed_lod (ts_lods ts)) by (eapply Forall_impl; [|exact F1]; apply lod_ok_fixed).
+      rewrite Et, F6. rewrite (progs_length _ Hfix). rewrite F3. destruct (a_extend a); lia.
+  Qed.
+
+  (* (4) coverage: StartX = 1, ViewStartX = 1 + Extend; the point before ViewStartX lies before the requested start and
+     the next aligned instant does not (so no aligned point of the range is missing at the front); at the back the
+     last point is the last aligned instant before the end (followed by one more point when Extend is set) *)
+  Theorem range_covered :
+    ts_time ts <> [] ->
+    let s0 := fst (hd (0, 0) (ts_lods ts)) in
+    let sk := fst (last (ts_lods ts) (0, 0)) in
+    let p := nth (Z.to_nat (ts_vstartx ts - 1)) (ts_time ts) 0 in
+    let q := last (ts_time ts) 0 in
+    ts_startx ts = 1 /\ ts_vstartx ts = 1 + (if a_extend a then 1 else 0) /\
+    p < a_start a <= p + s0 /\
+    (if a_extend a then q - sk < a_end a <= q else q < a_end a <= q + sk).
+  Proof.
+    intros Hne. destruct (range_structure c a ts Hm Hp Hok) as [E|[s0 [l0 [r S]]]].
+    - subst ts. simpl in Hne. contradiction.
+    - cbv zeta in S. destruct S as [HF [HS [_ [He1 [He2 [_ [Et [El [Esx Evx]]]]]]]]].
+      set (t := round_time (a_start a) s0 (a_utc a)) in *.
+      set (d := (if t <? a_start a then 0 else 1) + (if a_extend a then 1 else 0)) in *.
+      assert (Hd : 0 <= d) by (unfold d; destruct (t <? a_start a); destruct (a_extend a); lia).
+      destruct (result_lods_facts s0 l0 r d (a_extend a) HF HS Hd) as [F1 [F2 [F3 [F4 [[lh [r' [F5 F5']]] [F6 [F7 [p [sk [lk [Ep [Hlk Hsk]]]]]]]]]]]].
+      cbv zeta in *. rewrite <- El in *.
+      assert (Hs0 : 0 < s0) by (apply (lod_ok_hd _ _ _ _ HF)).
+      assert (Hl0 : 0 < l0) by (apply (lod_ok_hd _ _ _ _ HF)).
+      pose proof (fl_bounds (a_utc a) (a_start a) s0 Hs0) as Hb. fold t in Hb.
+      split; [exact Esx|]. split; [exact Evx|]. rewrite Evx. rewrite F5 at 1. simpl (fst (hd _ _)).
+      split.
+      + (* front *)
+        set (e1 := if a_extend a then 1 else 0) in *.
+        replace (1 + e1 - 1) with e1 by lia.
+        assert (He1r : 0 <= e1 < l0 + d) by (unfold d, e1; destruct (t <? a_start a); destruct (a_extend a); lia).
+        assert (Hn : nth (Z.to_nat e1) (ts_time ts) 0 = t - d * s0 + e1 * s0).
+        { rewrite Et. assert (Hin : nth (Z.to_nat e1) (progs (t - d * s0) ((s0, l0 + d) :: r)) 0 = t - d * s0 + e1 * s0)
+            by (apply progs_nth_first; exact He1r).
+          destruct (a_extend a); [|exact Hin]. rewrite app_nth1; [exact Hin|].
+          simpl. rewrite app_length, seg_length. lia. }
+        rewrite Hn. unfold d. fold e1. destruct (t <? a_start a) eqn:Hlt.
+        * apply Z.ltb_lt in Hlt. lia.
+        * apply Z.ltb_ge in Hlt. lia.
+      + (* back *)
+        rewrite F4. rewrite <- Hsk.
+        assert (Hlast : last (progs (t - d * s0) ((s0, l0 + d) :: r)) 0 = t + span ((s0, l0) :: r) - sk).
+        { rewrite Ep. rewrite (progs_last _ p sk lk Hlk). rewrite <- Ep. rewrite F7. lia. }
+        rewrite Et. destruct (a_extend a).
+        * rewrite last_last. rewrite F7. rewrite Hsk. lia.
+        * rewrite Hlast. rewrite Hsk. lia.
+  Qed.
+
+  (* (2) storage ranges: Timescale.GetLODs returns, for every offset that passed the multiple-of-step check (and 0),
+     the contiguous ranges of the per-LOD progressions shifted by the offset *)
+  Theorem range_get_lods off :
+    ts_time ts <> [] -> (off = 0 \/ In off (map fst (a_metrics a))) ->
+    exists t0, ts_time ts = progs t0 (ts_lods ts) /\
+               ts_get_lods c (a_utc a) ts off = ranges (t0 - off) (ts_lods ts).
+  Proof.
+    intros Hne Hoff. destruct (range_structure c a ts Hm Hp Hok) as [E|[s0 [l0 [r S]]]].
+    - subst ts. simpl in Hne. contradiction.
+    - cbv zeta in S. destruct S as [HF [HS [_ [_ [_ [Hdiv [Et [El _]]]]]]]].
+      set (t := round_time (a_start a) s0 (a_utc a)) in *.
+      set (d := (if t <? a_start a then 0 else 1) + (if a_extend a then 1 else 0)) in *.
+      assert (Hd : 0 <= d) by (unfold d; destruct (t <? a_start a); destruct (a_extend a); lia).
+      destruct (result_lods_facts s0 l0 r d (a_extend a) HF HS Hd) as [F1 [F2 [F3 [F4 [[lh [r' [F5 F5']]] [F6 _]]]]]].
+      cbv zeta in *. rewrite <- El in *.
+      assert (Hs0 : 0 < s0) by (apply (lod_ok_hd _ _ _ _ HF)).
+      assert (Hl0 : 0 < l0) by (apply (lod_ok_hd _ _ _ _ HF)).
+      assert (HsM : s0 <> month_step). { destruct (lod_ok_hd _ _ _ _ HF) as [H1 _]. apply fixed_all_range in H1. lia. }
+      assert (Hfix : Forall fixed_lod (ts_lods ts)) by (eapply Forall_impl; [|exact F1]; apply lod_ok_fixed).
+      exists (t - d * s0). assert (Etime : ts_time ts = progs (t - d * s0) (ts_lods ts)) by (rewrite Et; apply F6).
+      split; [exact Etime|].
+      assert (Hdo : (s0 | off)).
+      { destruct Hoff as [Z0|I]; [subst off; apply Z.divide_0_r|]. apply in_map_iff in I. destruct I as [m [Em Im]]. subst off. apply Hdiv. exact Im. }
+      assert (Hal : aligned (a_utc a) (t - d * s0) s0).
+      { replace (t - d * s0) with (t + (- d) * s0) by lia. apply aligned_add; [assumption|]. apply fl_aligned. assumption. }
+      unfold ts_get_lods. rewrite Etime. rewrite F5.
+      assert (Hlh : Z.to_nat lh = S (Z.to_nat (lh - 1))) by lia.
+      cbn [progs]. rewrite Hlh. cbn [seg app].
+      rewrite <- F5. rewrite (lods_from_ranges c _ Hfix).
+      destruct (off =? 0) eqn:E0.
+      + apply Z.eqb_eq in E0. subst off. rewrite Z.sub_0_r. reflexivity.
+      + rewrite sol_fixed by assumption. rewrite (fl_shift (a_utc a) _ s0 off Hs0 Hdo). rewrite (fl_id (a_utc a) _ s0 Hs0 Hal). reflexivity.
+  Qed.
+End RangeTheorems.
+
+(* (5) errors only when out of range: for every mode, an error of the current code is either "exceeded maximum
+   resolution" — not a point query and even the coarsest step needs more than maxPoints points — or an offset that is
+   not a multiple of the first LOD step; "LOD out of range" never happens *)
+Theorem errors_only_when_out_of_range c a er :
+  a_step a <> month_step -> get_timescale false c a = RErr er ->
+  (er = EOutOfRange /\ is_point (a_mode a) = false /\
+   exists lv, In lv lod_levels /\
+     max_points < cnt (round_time (a_start a - q_moff a) (hd 0 (snd lv)) (a_utc a)) (hd 0 (snd lv)) (a_end a - q_moff a)) \/
+  (er = EOffset /\ exists s0 m, In s0 fixed_all /\ In m (a_metrics a) /\ Z.rem (fst m) s0 <> 0).
+Proof.
+  intros Hm H. rewrite get_timescale_eq in H.
+  destruct ((a_end a <=? a_start a) || (a_step a <? 0)) eqn:G; [discriminate|].
+  apply orb_false_iff in G. destruct G as [G1 G2]. apply Z.leb_gt in G1. apply Z.ltb_ge in G2.
+  assert (Elv : q_levels a = lod_levels). { unfold q_levels. apply Z.eqb_neq in Hm. rewrite Hm. reflexivity. }
+  rewrite Elv in H.
+  pose proof (outer_spec c (a_utc a) (a_end a - q_moff a) (q_minstep a) (a_width a) (is_point (a_mode a)) (a_now a) false
+               (a_start a - q_moff a) fixed_all (q_minstep_ge1 a G2) fixed_all_div fixed_all_range eq_refl
+               lod_levels lod_levels_wf _ _ _ _ (inv_init (a_utc a) (a_end a - q_moff a) (is_point (a_mode a)) (a_now a) (a_start a - q_moff a) fixed_all lod_levels)) as S.
+  destruct (outer c (a_utc a) (a_end a - q_moff a) (q_minstep a) (a_width a) (is_point (a_mode a)) (a_now a) false lod_levels (a_start a - q_moff a) 0 0 []) as [er'|rl].
+  - inversion H; subst er'. left. exact S.
+  - destruct S as [F1 _]. right. unfold ts_tail in H.
+    destruct (rev rl) as [|[s0 l0] r] eqn:Erev; [discriminate|].
+    assert (Hin : In s0 fixed_all).
+    { assert (HF : Forall (lod_ok fixed_all) (rev rl)) by (apply Forall_rev; assumption). rewrite Erev in HF. apply (lod_ok_hd _ _ _ _ HF). }
+    destruct (existsb (fun m => negb (Z.rem (fst m) s0 =? 0)) (a_metrics a)) eqn:Hoff.
+    + inversion H; subst. split; [reflexivity|]. apply existsb_exists in Hoff. destruct Hoff as [m [Im Nm]].
+      exists s0, m. split; [exact Hin|]. split; [exact Im|]. apply negb_true_iff in Nm. apply Z.eqb_neq in Nm. exact Nm.
+    + exfalso. destruct (is_point (a_mode a)).
+      * destruct (_ =? _) in H; discriminate.
+      * revert H. cbv zeta.
+        destruct (if start_of_lod c (a_start a) s0 (a_utc a) <? a_start a then _ else _) as [[[t1 d1] sx1] vsx1].
+        destruct (if sx1 =? 0 then _ else _) as [[[t2 d2] sx2] vsx2].
+        destruct (gen_time c t2 (bump_first ((s0, l0) :: r) d2)). destruct (a_extend a); discriminate.
+Qed.
+
+(* corollaries of (1): strictly increasing, consecutive differences are the LOD steps, every point aligned to its step *)
+Lemma steps_of_pos lods : Forall fixed_lod lods -> Forall (fun s => 0 < s) (steps_of lods).
+Proof.
+  induction 1 as [|[s l] r [H1 [H2 H3]] Hr IH]; simpl. constructor.
+  apply Forall_app. split; [|assumption]. simpl in H2. clear -H2. induction (Z.to_nat l); simpl; constructor; assumption.
+Qed.
+Lemma progs_sorted lods t : Forall fixed_lod lods -> StronglySorted Z.lt (progs t lods).
+Proof.
+  intros HF. eapply ss_app_l. eapply chain_sorted. apply progs_chain. exact HF. apply steps_of_pos. exact HF.
+Qed.
+
+Theorem range_time_increasing_gapfree_aligned c a ts :
+  a_step a <> month_step -> is_point (a_mode a) = false -> get_timescale false c a = ROk ts ->
+  StronglySorted Z.lt (ts_time ts) /\
+  (exists t0 tl, chain t0 (ts_time ts) (steps_of (ts_lods ts)) tl) /\
+  Forall2 (fun p s => (p + a_utc a) mod s = 0) (ts_time ts) (steps_of (ts_lods ts)).
+Proof.
+  intros Hm Hp Hok. destruct (range_time_is_progressions c a ts Hm Hp Hok) as [t0 [Et [F1 [F2 [F3 [F4 _]]]]]].
+  assert (Hfix : Forall fixed_lod (ts_lods ts)) by (eapply Forall_impl; [|exact F1]; apply lod_ok_fixed).
+  rewrite Et. split; [apply progs_sorted; exact Hfix|]. split.
+  - exists t0, (t0 + span (ts_lods ts)). apply progs_chain. exact Hfix.
+  - apply (progs_aligned (a_utc a) (ts_lods ts) Hfix F3 t0). destruct (ts_lods ts) as [|[s l] r]; [exact I|exact F4].
+Qed.
+
+Lemma fixed_all_in_table : incl fixed_all lod_table_steps.
+Proof. apply inclb_incl. vm_compute. reflexivity. Qed.
+Lemma coarsest_step : forall lv, In lv lod_levels -> hd 0 (snd lv) = hd 0 fixed_all.
+Proof.
+  assert (H : forallb (fun lv => hd 0 (snd lv) =? hd 0 fixed_all) lod_levels = true) by (vm_compute; reflexivity).
+  intros lv Hlv. rewrite forallb_forall in H. apply Z.eqb_eq. apply H. exact Hlv.
+Qed.
